@@ -291,12 +291,12 @@ def _rtree_bytes(bo, base, leaf_items, fanout, ips, order, rng, pad, min_levels=
             struct.pack_into(bo + "BBH", out, o, 1, 0, len(nd.items))
             for i, it in enumerate(nd.items):
                 struct.pack_into(bo + "IIIIQQ", out, o + 4 + 32 * i, *it)
-            nodes.append((nd.offset, True, len(nd.items)))
+            nodes.append((nd.offset, True, len(nd.items), size(nd)))
         else:
             struct.pack_into(bo + "BBH", out, o, 0, 0, len(nd.kids))
             for i, k in enumerate(nd.kids):
                 struct.pack_into(bo + "IIIIQ", out, o + 4 + 24 * i, k.lo[0], k.lo[1], k.hi[0], k.hi[1], k.offset)
-            nodes.append((nd.offset, False, len(nd.kids)))
+            nodes.append((nd.offset, False, len(nd.kids), size(nd)))
     return bytes(out), dict(levels=levels, nodes=nodes)
 
 
@@ -500,12 +500,12 @@ def encode_with_model(content, layout):
     for i, (red, zd, zi) in enumerate(zoom_heads):
         struct.pack_into(bo + "IIQQ", out, 64 + 24 * i, red, 0, zd, zi)
     data = bytes(out)
-    # is the last R-tree node of the file a non-leaf node with nothing but the trailing magic (or nothing) after it?
+    # is the last R-tree node of the file a non-leaf node (padding included) with nothing but the trailing magic
+    # (or nothing at all) after it?  A description of the layout, nothing more.
     last = max(all_nodes, key=lambda x: x[0]) if all_nodes else None
     nonleaf_tail = False
     if last is not None and not last[1]:
-        used_end = last[0] + 4 + 24 * last[2]
-        nonleaf_tail = len(data) - used_end <= 4
+        nonleaf_tail = len(data) - (last[0] + last[3]) <= 4
     model = dict(
         chroms=[(nm, sz) for (nm, _, sz) in table],
         total_summary=summ if summary_off else None,
